@@ -77,7 +77,11 @@ class StatefulError(Exception):
         return (StatefulError, (self.args[0], self.code), self.__dict__)
 
 
-EXC = {"ValueError": ValueError, "KeyError": KeyError, "RuntimeError": RuntimeError, "ZeroDivisionError": ZeroDivisionError,
+class StopSub(StopIteration):
+    """A user exception that subclasses StopIteration (e.g. an 'out of data' signal): iterator machinery swallows it."""
+
+
+EXC = {"StopSub": StopSub, "ValueError": ValueError, "KeyError": KeyError, "RuntimeError": RuntimeError, "ZeroDivisionError": ZeroDivisionError,
        "HarnessError": HarnessError, "StatefulError": StatefulError}
 
 
